@@ -1,5 +1,9 @@
 import Lemmas.NotifierDelivery
 import Lemmas.NotifierConc
+import Lemmas.NotifierReentry
+import Lemmas.NotifierBatchEn
+import Lemmas.NotifierMerge
+import Lemmas.NotifierJudge
 /-! # C17 — notifications reach exactly the registered targets, once, in priority order
 
 Property theorems only.  The executable model is `Model/Notifier.lean` (`Nt.step`, run by `drv_c17` against the Go
@@ -177,6 +181,38 @@ theorem unmatched_end_silent (s : NSt) :
   · intro h; simp [endBatch, h]
   · intro h; simp [endBatch, startBatch, h]
 
+/-- `batch_nesting` at full width: the notifier may be DISABLED AND RE-ENABLED inside the pair (`Nt.matchedE`: what is
+    called on it while disabled — Start, End, Notify — does not count, the code ignores it without touching the level;
+    only `Reset` of the same notifier stays excluded, see `batch_abandoned_by_reset`).  Same conclusion: `BatchMode(true)`
+    once to the batch targets on the outermost start, no `BatchMode` call of `n` in between, `BatchMode(false)` once to
+    the same list on the matching end, level 0 afterwards.  `batch_nesting` is the special case (`matchedE_of_matched`). -/
+theorem batch_nesting_with_disabled_stretches (pan : Nat → Bool) (ops : List Op) (n : Nat) (mid : List Op)
+    (he : ((run pan ops).1 n).enabled = true) (hl : ((run pan ops).1 n).level = 0) (hm : matchedE n 0 true mid = true) :
+    let w := (run pan ops).1
+    let r1 := step pan w (.startBatch n)
+    let r2 := runFrom pan r1.1 mid
+    let r3 := step pan r2.1 (.endBatch n)
+    r1.2 = batchAll pan n true (w n).batch ∧ NoBatchEvents n r2.2 ∧ r3.2 = batchAll pan n false (w n).batch ∧
+    (r3.1 n).level = 0 ∧ (r3.1 n).enabled = true :=  by
+  intro w r1 r2 r3
+  obtain ⟨a, b, c, d⟩ := nest_outerE pan w (winv_run pan ops) n mid he hl hm
+  exact ⟨a, b, c, d, nest_outerE_enabled pan w n mid he hl hm⟩
+
+/-- the hypothesis is met by a history that disables the notifier inside the pair, calls Start/End/Notify on it while
+    disabled and enables it again; the restricted `matched` rejects it -/
+example : matchedE 0 0 true [.startBatch 0, .setEnabled 0 false, .endBatch 0, .endBatch 0, .startBatch 0, .notify 0 [97],
+      .setEnabled 0 true, .endBatch 0, .register 0 1 2 [[98]]] = true ∧
+    matched 0 0 [.setEnabled 0 false, .setEnabled 0 true] = false := by decide
+
+/-- what stays excluded, stated: `Reset` inside a pair ABANDONS the batch — level 0, no current batch — so the `EndBatch`
+    meant to match the outer `StartBatch` is an unmatched one and calls nobody (the targets that got `BatchMode(true)` get
+    no `BatchMode(false)` for that batch); an `EndBatch` / `StartBatch` made while the notifier is disabled does not even
+    change the level.  (The clause of the property speaks of matching pairs; after `Reset` there is none.) -/
+theorem batch_abandoned_by_reset (s : NSt) :
+    endBatch (reset s) = (reset s, []) ∧ (reset s).level = 0 ∧ (reset s).current = [] ∧
+    endBatch (setEnabled s false) = (setEnabled s false, []) ∧ startBatch (setEnabled s false) = (setEnabled s false, []) :=
+  reset_abandons_batch s
+
 /-- `maps_consistent`, over all histories: the production map and the name map are mutual inverses (this is what makes
     `Unregister` complete), the batch set is exactly the set of registered batch-capable targets and has no duplicates,
     no key occurs twice in any of the association lists, and an idle notifier holds no current batch -/
@@ -284,6 +320,82 @@ theorem normalize_join_roundtrip (raw : List Nat) :
 example : ((run nobody [.register 0 1 5 [[97]]]).1 0).enabled = true ∧ ((run nobody [.register 0 1 5 [[97]]]).1 0).level = 0 ∧
     matched 0 0 [.startBatch 0, .notify 0 [97], .endBatch 0, .register 0 3 1 [[98]]] = true := by
   decide
+
+/-! ## re-entrant targets (model `Model/NotifierReentry.lean`).  `Nt.stepRe` — what `drv_c17` executes — runs the delivery
+    loops with the world threaded through them: the callback of a re-entrant target performs the armed operation as a
+    complete exported call at that moment, on the registry as it is then.  The clause "exactly once on each target
+    currently registered" is read at the moment the outer call took its snapshot (its linearization point,
+    `notify_delivers_snapshot`): what a target does to the registry from inside a callback changes later calls, not the
+    one in progress. -/
+
+/-- with nothing armed the threaded execution is `Nt.step`: every theorem of the first part speaks about `stepRe` too -/
+theorem reentrant_unarmed_is_step (pan : Nat → Bool) (w : World) (op : Op) :
+    stepRe pan (w, none) op = (((step pan w op).1, none), (step pan w op).2) :=
+  stepRe_unarmed pan w op
+
+/-- **a target calls back into a notifier from inside `HandleNotification` / `BatchMode`** (any operation `op'` on any
+    notifier, armed; any outer call `op`; any world).  (1) The world afterwards is that of the two calls performed one
+    after the other — outer first —, and the arm is consumed exactly when a re-entrant callback was made.  (2) The
+    events are those of the outer call ALONE (`pre ++ post`, same targets, same order, same recovery reports) with the
+    nested call's events in between, right after the first re-entrant callback `e` — so the outer call still reaches
+    every target of its snapshot exactly once although the nested call may have unregistered them, reset or disabled
+    the notifier.  (3) The nested call sees the registry the outer call left (`(step pan w op).1`: the level already
+    raised by an outer `StartBatch`, the current batch already cleared by an outer `EndBatch`). -/
+theorem reentrant_call_spec (pan : Nat → Bool) (w : World) (op op' : Op) :
+    let base := step pan w op
+    let nested := step pan base.1 op'
+    let fired := base.2.any reentersOn
+    let r := stepRe pan (w, some op') op
+    r.1 = (if fired then (nested.1, none) else (base.1, some op')) ∧
+    ∃ pre post, base.2 = pre ++ post ∧ r.2 = pre ++ (if fired then nested.2 else []) ++ post ∧
+      (fired = true → ∃ pre' e, pre = pre' ++ [e] ∧ reentersOn e = true ∧ ∀ x ∈ pre', reentersOn x = false) :=
+  stepRe_armed pan w op op'
+
+/-- consequence, in the words of the property: whatever operation a target performs from inside a callback of
+    `Notify(raw)` on notifier `i`, every target of the delivery list `Nt.notify (w i) raw` (about which `notify_targets`
+    / `notify_priority_order` speak) still receives its `HandleNotification`, and the outer call's own events keep
+    their order (they are a sublist of what is observed) -/
+theorem reentrant_outer_delivery_complete (pan : Nat → Bool) (w : World) (i : Nat) (raw : List Nat) (op' : Op) :
+    (step pan w (.notify i raw)).2.Sublist (stepRe pan (w, some op') (.notify i raw)).2 ∧
+    ∀ d ∈ notify (w i) raw, Event.handle i d.2 (normalize raw) d.1 ∈ (stepRe pan (w, some op') (.notify i raw)).2 := by
+  obtain ⟨_, pre, post, h1, h2, _⟩ := stepRe_armed pan w (.notify i raw) op'
+  have hsub : (step pan w (.notify i raw)).2.Sublist (stepRe pan (w, some op') (.notify i raw)).2 := by
+    rw [h1, h2, List.append_assoc]
+    exact List.Sublist.append (List.Sublist.refl _) (List.sublist_append_right _ _)
+  refine ⟨hsub, fun d hd => hsub.subset ?_⟩
+  have hc := (panic_step pan w (.notify i raw) i raw).2.2
+  have : Event.handle i d.2 (normalize raw) d.1 ∈ calls (step pan w (.notify i raw)).2 := by
+    rw [hc]; exact List.mem_map.mpr ⟨d, hd, rfl⟩
+  exact (List.mem_filter.mp this).1
+
+/-- **histories with re-entrant calls are histories**: a history of exported calls interleaved with armings (`Nt.ReOp`,
+    executed by `Nt.runRe` = `stepRe` call after call) leaves the world of the plain sequential history `Nt.flatRe` in which
+    every armed operation stands right after the call during which it fired.  So every reachable-world statement of the
+    first part — `registered_spec`, `maps_consistent`, `notify_targets`, … (all "over all histories") — holds after
+    histories with re-entrant targets as well; spelled out for the refinement statement. -/
+theorem reentrant_histories_are_histories (pan : Nat → Bool) (l : List ReOp) :
+    (runRe pan (World.init, none) l).1.1 = (run pan (flatRe pan (World.init, none) l)).1 ∧
+    ∀ i n t, lookup ((runRe pan (World.init, none) l).1.1 i).prod n t = specRun (flatRe pan (World.init, none) l) i n t := by
+  have h := runRe_world pan l (World.init, none)
+  refine ⟨h, fun i n t => ?_⟩
+  rw [h]
+  exact registered_spec pan _ i n t
+
+/-- the snapshot matters (CONTRAST): in `Nt.reWorld` targets 6 (priority 5, re-entrant) and 0 (priority 1) are registered
+    for "a"; the armed operation is `Unregister(target 0)`.  The code's loop (`stepRe`) still calls target 0 — it is in
+    the snapshot `[(5, 6), (1, 0)]` —; a loop that asked the registry again before each call (`Nt.notifyLive`, not the
+    code) would skip it.  Afterwards target 0 is unregistered and the arm is consumed. -/
+theorem live_revalidation_refuted :
+    notify (reWorld 0) [97] = [(5, 6), (1, 0)] ∧
+    (stepRe nobody (reWorld, some (.unregister 0 0)) (.notify 0 [97])).2 =
+      [Event.handle 0 6 [[97]] 5, Event.handle 0 0 [[97]] 1] ∧
+    (notifyLive nobody 0 [97] (notify (reWorld 0) [97]) (reWorld, some (.unregister 0 0))).2 = [Event.handle 0 6 [[97]] 5] ∧
+    lookup ((stepRe nobody (reWorld, some (.unregister 0 0)) (.notify 0 [97])).1.1 0).prod [[97]] 0 = none ∧
+    (stepRe nobody (reWorld, some (.unregister 0 0)) (.notify 0 [97])).1.2 = none := by
+  refine ⟨notify_reWorld, ?_, ?_, ?_⟩
+  · simp only [stepRe, notify_reWorld]; decide
+  · rw [notify_reWorld]; decide
+  · simp only [stepRe, notify_reWorld]; decide
 
 /-! ## concurrent use (model `Model/NotifierConc.lean`, generic mutex machine `Model/Mutex.lean`) -/
 section concurrent
@@ -440,6 +552,66 @@ theorem unlocked_not_linearizable :
     raceObs (seqExec rrun {} [(0, .register 5 1 [[97], [98]]), (1, .unregister 5)]).2 = (none, none, false) ∧
     raceObs (seqExec rrun {} [(1, .unregister 5), (0, .register 5 1 [[97], [98]])]).2 = (some 1, some 1, true) := by
   decide
+
+/-- **the second judge of the race run accepts only what the property allows.**  The `-race` stress harness records what
+    every concurrent call observed; `drv_c17 lin` searches an acquisition order for which `Mutex.seqExec NtC.rrun` (the
+    left-hand side of `concurrent_registry_linearizable`) explains the record.  For a `Notify(raw)` placed at registry state
+    `s` its test is `NtJ.notifyObsOk` applied to the results of the two brackets (`s.enabled`, `collectTbl s raw`).  If the
+    test accepts the observed `HandleNotification` calls `hs` = [(target, name)…], then the targets called are a
+    PERMUTATION of the sequential model's delivery list `Nt.notify s raw` (each exactly once — about that list
+    `notify_targets` / `no_textual_prefix` speak), every call carried the normalised name, each call's priority is the one
+    the delivery list attaches to its target, and priorities do not increase along the observed order -/
+theorem judge_accepts_only_allowed_deliveries (s : NSt) (raw : List Nat) (hs : List (Nat × List Nat))
+    (h : NtJ.notifyObsOk s.enabled (collectTbl s raw) raw false hs = true) :
+    (hs.map (·.1)).Perm (targetsOf (notify s raw)) ∧
+    (∀ x ∈ hs, x.2 = joinDots (normalize raw)) ∧
+    (∀ x ∈ hs, ((assocGet (collectTbl s raw) x.1).getD 0, x.1) ∈ notify s raw) ∧
+    (hs.map (fun x => (assocGet (collectTbl s raw) x.1).getD 0)).Pairwise (fun a b => a ≥ b) :=
+  NtJ.notifyObsOk_sound s raw hs h
+
+/-- the judge is not vacuous: it accepts a correct delivery and rejects a missing target, a duplicate, a wrong order and a
+    textual-prefix name -/
+example : NtJ.notifyObsOk true [(1, 5), (2, 3)] [97] false [(1, [97]), (2, [97])] = true ∧
+    NtJ.notifyObsOk true [(1, 5), (2, 3)] [97] false [(1, [97])] = false ∧
+    NtJ.notifyObsOk true [(1, 5), (2, 3)] [97] false [(1, [97]), (1, [97])] = false ∧
+    NtJ.notifyObsOk true [(1, 5), (2, 3)] [97] false [(2, [97]), (1, [97])] = false ∧
+    NtJ.notifyObsOk true [(1, 5), (2, 3)] [97] false [(1, [97]), (2, [97, 98])] = false ∧
+    NtJ.notifyObsOk false [(1, 5), (2, 3)] [97] false [] = true := by decide
+
+/-! ### `RegisterFromNotifier` across notifiers (model `Model/NotifierMerge.lean`): a world of notifiers with ONE LOCK EACH,
+    goroutines executing lock / unlock / copy / merge instructions under any scheduler.  The code copies the source's maps
+    under the source's lock, releases it, and only then takes the destination's lock ("To avoid a potential deadlock, we
+    make a copy of the other notifier's data first"). -/
+
+/-- **merging never dead-locks**: whatever `RegisterFromNotifier` calls any number of goroutines make between any
+    notifiers (also in opposite directions, also in cycles), under EVERY schedule some goroutine can take a step until all
+    calls have returned — because a goroutine holds at most one lock at a time (`NtM.OneAtATime`, which the programs of the
+    code satisfy: `NtM.mergeCalls_ok`) -/
+theorem merge_never_deadlocks (w : World) (calls : Nat → List (Nat × Nat)) (sch : List Nat) (c : NtM.Conf)
+    (he : NtM.exec (NtM.init w (fun t => (calls t).flatMap (fun nm => NtM.mergeProg nm.1 nm.2))) sch = some c) :
+    (∃ t, (NtM.step c t).isSome = true) ∨ NtM.AllDone c :=
+  NtM.minv_progress c (NtM.minv_exec sch _ c (NtM.minv_init w _ (fun t => NtM.mergeCalls_ok (calls t))) he)
+
+/-- CONTRAST: with the destination's lock taken INSIDE the source's bracket (`NtM.nestedProg`, the variant the source
+    comment warns about) goroutine 0 calling `n0.RegisterFromNotifier(n1)` and goroutine 1 calling
+    `n1.RegisterFromNotifier(n0)` dead-lock after one step each: neither can move, both have 4 instructions left; the
+    code's programs run to the end under the same and under every interleaving tried -/
+theorem nested_merge_deadlocks :
+    (NtM.exec (NtM.init World.init NtM.nestedProgs) [0, 1]).map
+      (fun c => ((NtM.step c 0).isSome, (NtM.step c 1).isSome, (c.threads 0).prog.length, (c.threads 1).prog.length)) =
+      some (false, false, 4, 4) ∧
+    ∀ sch ∈ [[0, 1, 0, 1, 0, 1, 0, 1, 0, 1, 0, 1], [0, 0, 0, 1, 1, 1, 0, 0, 0, 1, 1, 1], [1, 1, 1, 1, 1, 1, 0, 0, 0, 0, 0, 0]],
+      (NtM.exec (NtM.init World.init NtM.crossProgs) sch).map (fun c => (c.threads 0).prog.length + (c.threads 1).prog.length) =
+        some 0 := by
+  decide
+
+/-- the lock-level program is the model's merge: run without interference, `lock m; copy; unlock m; lock n; merge; unlock n`
+    leaves exactly the world of the atomic step `Nt.step (.merge n m)` about which `merge_spec` speaks (and does nothing
+    for `n = m`) -/
+theorem merge_program_is_model_merge (pan : Nat → Bool) (w : World) (n m : Nat) :
+    (NtM.exec (NtM.init w (fun u => if u = 0 then NtM.mergeProg n m else []))
+      (List.replicate (NtM.mergeProg n m).length 0)).map (·.w) = some (step pan w (.merge n m)).1 :=
+  NtM.mergeProg_sequential pan w n m
 
 /-! ### the readers-writer lock.  The theorems above run on the machine that treats every bracket as exclusive.  The Go
     code takes only the READ half of its `sync.RWMutex` in `Enabled()`, `BatchLevel()` and the ancestor walk of
